@@ -86,16 +86,56 @@ def hm_insert(it, mr, k, v):
 def hm_remove(it, mr, k):
     m = deref_all(mr); i = find(it, m, k)
     return SOME(m.items.pop(i)[1]) if i is not None else NONE()
-reg(_HM + r'entry', lambda it, mr, k: EntryObj(mr, k))
+def hm_entry(it, mr, k):
+    # enum Entry { Occupied(OccupiedEntry), Vacant(VacantEntry) }: decided when the entry is taken
+    i = find(it, deref_all(mr), k)
+    return Adt(0 if i is not None else 1, [EntryObj(mr, k)], 'std::collections::hash_map::Entry')
+reg(_HM + r'entry', hm_entry)
+def _eo(e):
+    e = deref_all(e)
+    return deref_all(e.fields[0]) if isinstance(e, Adt) else e
+_OE = r"std::collections::hash_map::OccupiedEntry::<'_, .*>::"
+_VE = r"std::collections::hash_map::VacantEntry::<'_, .*>::"
+def _slot(it, e):
+    e = _eo(e); r = root_ref(e.mref); i = find(it, r.get(), e.key)
+    return e, r, i
+@model(_OE + r'(get|get_mut|into_mut)')
+def oe_get(it, e):
+    e, r, i = _slot(it, e)
+    if i is None: raise Panic('occupied entry without a slot')
+    return Ref(r.box, r.path + (i, 1))
+@model(_OE + r'insert')
+def oe_insert(it, e, v):
+    e, r, i = _slot(it, e); m = r.get(); old = m.items[i][1]; m.items[i][1] = v; return old
+@model(_OE + r'(remove)')
+def oe_remove(it, e):
+    e, r, i = _slot(it, e); return r.get().items.pop(i)[1]
+@model(_OE + r'(remove_entry)')
+def oe_remove_entry(it, e):
+    e, r, i = _slot(it, e); kv = r.get().items.pop(i); return [kv[0], kv[1]]
+reg(r"std::collections::hash_map::(Occupied|Vacant)Entry::<'_, .*>::key", lambda it, e: Ref(Box_(_eo(e).key)))
+reg(_VE + r'into_key', lambda it, e: _eo(e).key)
+@model(_VE + r'(insert|insert_entry)')
+def ve_insert(it, e, v):
+    e, r, i = _slot(it, e); m = r.get()
+    if i is None: m.items.append([e.key, v]); i = len(m.items) - 1
+    else: m.items[i][1] = v
+    return Ref(r.box, r.path + (i, 1))
+reg(r"std::collections::hash_map::Entry::<'_, .*>::key", lambda it, e: Ref(Box_(_eo(e).key)))
+@model(r"std::collections::hash_map::Entry::<'_, .*>::and_modify::<.*>")
+def hm_and_modify(it, e, clo):
+    eo, r, i = _slot(it, e)
+    if i is not None: it.call_closure(clo, Ref(r.box, r.path + (i, 1)))
+    return e
 @model(r"std::collections::hash_map::Entry::<'_, .*>::or_insert_with::<.*>")
 def hm_or_insert_with(it, e, clo):
-    r = root_ref(e.mref); m = r.get(); i = find(it, m, e.key)
+    e = _eo(e); r = root_ref(e.mref); m = r.get(); i = find(it, m, e.key)
     if i is None:
         v = it.call_closure(clo); m.items.append([e.key, v]); i = len(m.items) - 1
     return Ref(r.box, r.path + (i, 1))
 @model(r"std::collections::hash_map::Entry::<'_, .*>::(or_insert|or_default)")
 def hm_or_insert(it, e, *v):
-    r = root_ref(e.mref); m = r.get(); i = find(it, m, e.key)
+    e = _eo(e); r = root_ref(e.mref); m = r.get(); i = find(it, m, e.key)
     if i is None:
         if not v: raise Unsupported('Entry::or_default')
         m.items.append([e.key, v[0]]); i = len(m.items) - 1
